@@ -54,6 +54,14 @@ def check_case(ctx, case):
         # the flag only supplies the leading character of a string that has no sign of its own
         if flag in ('+', ' ') and s != (noflag if noflag.startswith('-') else flag + noflag):
             probs.append(('violation', 'flag-rule', '%r for flag %r, unflagged %r' % (s, flag, noflag)))
+        # a sign flag without a number of digits means the default two significant digits
+        if flag in ('+', ' ') and sig == 2:
+            try:
+                sb = format(o, flag)
+                if sb != s:
+                    probs.append(('violation', 'flag-bare', 'format(o, %r) = %r, format(o, %r) = %r' % (flag, sb, flag + '2', s)))
+            except Exception as e:
+                probs.append(('violation', 'flag-bare', 'format(o, %r) raises %s: %s' % (flag, type(e).__name__, str(e)[:80])))
         try:
             vs, es = core[:-1].split('(')
         except ValueError:
